@@ -14,6 +14,8 @@
      pcall    m outs sample intact        Publish entered; sample = settlement of m seen inside
      pret     m outcome sample            Publish about to return / panic
      settled  m kind                      the subscriber saw Acked()/Nacked() of m close
+     untaken  m                           the handler had been stopped before m was handed over, the router is closed
+                                          now and the chain was never invoked for m: it must be unsettled
      quiesce  final                       all emitted messages settled; final = <<[m, kind], ...>>
    The router's own settlement is not logged: Settle(m) is a silent step.       *)
 EXTENDS RouterHandler, TraceBase
@@ -39,6 +41,7 @@ TReset == /\ Is("reset")
 Keep == UNCHANGED hp
 
 TEmit   == Is("emit")   /\ Emit(Ev.m)   /\ Keep /\ Adv
+TUntaken == Is("untaken") /\ Untaken(Ev.m) /\ Keep /\ Adv
 THStart == Is("hstart") /\ HStart(Ev.m) /\ Keep /\ Adv
 THSelf  == Is("hself")  /\ HSelf(Ev.m, Ev.kind) /\ Keep /\ Adv
 THEnd   == Is("hend")   /\ HEnd(Ev.m, [end |-> Ev.end, outs |-> Ev.outs]) /\ Keep /\ Adv
@@ -54,6 +57,6 @@ TQuiesce == /\ Is("quiesce")
             /\ UNCHANGED rvars /\ Adv
 TSilent == (\E m \in Msgs : Settle(m)) /\ Keep /\ UNCHANGED l
 
-TNext == TReset \/ TEmit \/ THStart \/ THSelf \/ THLate \/ THEnd \/ TPCall \/ TPRet \/ TSettled \/ TQuiesce \/ TSilent
+TNext == TReset \/ TEmit \/ TUntaken \/ THStart \/ THSelf \/ THLate \/ THEnd \/ TPCall \/ TPRet \/ TSettled \/ TQuiesce \/ TSilent
 TSpec == TInit /\ [][TNext]_tvars
 =============================================================================
